@@ -20,6 +20,7 @@ type Config struct {
 	MaxPaths     int
 	MaxConcretize int   // max feasible values enumerated at one case-split
 	Deadline     time.Time
+	CaseBudget   time.Duration
 	Trace        bool
 	MaxViolations int
 	MapOrders    bool // fork over iteration orders of small maps
@@ -122,6 +123,7 @@ type Exec struct {
 	noteSeq   int
 	ctxErrCells map[string]Value
 	vchoices  []int
+	callersFull int
 
 	harnessPkg *ssa.Package
 }
@@ -560,6 +562,7 @@ func (ex *Exec) resetPath() {
 	ex.noteSeq = 0
 	ex.ctxErrCells = nil
 	ex.vchoices = nil
+	ex.callersFull = 0
 	ex.rt = newRuntimeState(ex)
 }
 
@@ -588,6 +591,11 @@ func (ex *Exec) inSyncValidFor(i int) bool { return true }
 // Run explores every path of fn(args...) and returns the report.
 func (ex *Exec) Run(fn *ssa.Function, args []int64) *Report {
 	t0 := time.Now()
+	if ex.cfg.CaseBudget > 0 {
+		if d := t0.Add(ex.cfg.CaseBudget); ex.cfg.Deadline.IsZero() || d.Before(ex.cfg.Deadline) {
+			ex.cfg.Deadline = d
+		}
+	}
 	ex.report = &Report{Entry: fn.Name(), Args: args, Discharged: map[string]int{}, Covers: map[string]*CoverWitness{}, Functions: map[string]string{}, Stubs: map[string]int{}}
 	ex.harnessPkg = fn.Pkg
 	ex.trace = nil
@@ -649,6 +657,8 @@ func (ex *Exec) runOnePath(fn *ssa.Function, args []int64) {
 			ex.unexpectedPanic(p)
 		case unsupported:
 			ex.inconclusive("engine: " + p.Error())
+		case engineBug:
+			ex.inconclusive("engine bug: " + p.msg)
 		default:
 			panic(r)
 		}
